@@ -79,11 +79,11 @@ def RefDb.gc (s : RefDb) (keepUntil : Int) : RefDb :=
   { s with live := s.live.filter (fun p => hasData s.db p.2 || s.pend.contains p.1),
            expiries := dead.foldl (fun e p => setExpiry e p.1 keepUntil) s.expiries }
 
-/-- `headAppender.log` for the series part + clearing `pendingCommit` (`Commit` and `Rollback` both). -/
+/-- `headAppender.log` (series record, then the samples record) + clearing `pendingCommit`, as `Commit`
+    and `Rollback` both do. (The code skips empty records; an empty record names nothing and replays as
+    a no-op, so the model writes it.) -/
 def RefDb.closeAppender (s : RefDb) (smps : List (Nat × Int)) : RefDb :=
-  let s := if s.created.isEmpty then s else s.log (.series s.created)
-  let s := if smps.isEmpty then s else s.log (.samples smps)
-  { s with pend := [], created := [], batchRefs := [] }
+  { s with cur := s.cur ++ [.series s.created, .samples smps], pend := [], created := [], batchRefs := [] }
 
 /-- What the harness does before `begin`/`reopen` when an appender is still open: `Rollback`. -/
 def RefDb.rollbackOpen (s : RefDb) : RefDb :=
@@ -199,6 +199,17 @@ def RefDb.resolve (s : RefDb) : ROp → Op
   | .app r i t v _ => .app (s.target r i) t v
   | .base op => op
 
+/-- `getByID(ref)`, else `getOrCreate(labels)`: the series the append works on, and its reference. -/
+def RefDb.getSeries (s : RefDb) (r i : Nat) : RefDb × Nat :=
+  match lookup s.live r with
+  | some _ => (s, r)
+  | none =>
+    match byLabels s.live i with
+    | some r0 => (s, r0)
+    | none =>
+      let n := s.lastID + 1
+      ({ s with lastID := n, live := insertLive s.live n i, created := s.created ++ [(n, i)], pend := n :: s.pend }, n)
+
 def RefDb.append (s : RefDb) (r i : Nat) (t : Int) (v : Nat) : RefDb × ROut :=
   let j := s.target r i
   let (d', res) := s.db.append j t v
@@ -207,16 +218,7 @@ def RefDb.append (s : RefDb) (r i : Nat) (t : Int) (v : Nat) : RefDb × ROut :=
   | some a' =>
     -- "Fail fast if OOO is disabled and the sample is out of bounds": before any series lookup
     if d'.cfg.oooWin = 0 ∧ t < a'.minValid then ({ s with db := d' }, .base (outOfRes res)) else
-    -- `getByID(ref)`, else `getOrCreate(labels)`
-    let (s1, ref) : RefDb × Nat :=
-      match lookup s.live r with
-      | some _ => (s, r)
-      | none =>
-        match byLabels s.live i with
-        | some r0 => (s, r0)
-        | none =>
-          let n := s.lastID + 1
-          ({ s with lastID := n, live := insertLive s.live n i, created := s.created ++ [(n, i)], pend := n :: s.pend }, n)
+    let (s1, ref) := s.getSeries r i
     match res with
     | .ok _ => ({ s1 with db := d', pend := ref :: s1.pend, batchRefs := s1.batchRefs ++ [ref],
                           issued := (ref, j) :: s1.issued }, .okRef ref)
